@@ -8,6 +8,7 @@ import os
 
 from ..gen import colang2 as G
 from ..kernel import control
+from ..kernel.draws import Draws
 from ..kernel.trace import Trace
 from ..worlds import interp as I
 from ..worlds import interp_run as IR
@@ -150,7 +151,7 @@ class C09(InterpProp):
             "over an alphabet of <= 4 events for small programs. evaluations = processed external events; non-trivial = steps that moved at least one head or changed a flow status; "
             "distinct = distinct normalised interpreter states (flow ids, statuses, head positions)")
     exhaustive_parts = ["all event histories up to length 4 (quick) / 5 (thorough) over {E1, E2, E3(x=1), E3(x=2)} for the small programs of batch (c)"]
-    expected_probes = ["batch_random", "batch_library", "library_variant_1", "library_variant_2", "batch_exhaustive", "cleanup_removed_flows", "tie_break_decided", "action_fault_delivered"]
+    expected_probes = ["batch_random", "state_restored_between_events", "batch_library", "library_variant_1", "library_variant_2", "batch_exhaustive", "cleanup_removed_flows", "tie_break_decided", "action_fault_delivered"]
     quick_runs = 1600
     thorough_runs = 120000
 
@@ -158,6 +159,10 @@ class C09(InterpProp):
         kind = d.weighted([("random", 7), ("library", 1), ("exhaustive", 2 if tier == "quick" else 1)], "batch")
         if kind == "random":
             sc = gen_interp_scenario(d, finishing_main=True)
+            if d.chance(0.2, "restores"):
+                # the state is saved and restored (JSON round trip) between events at seeded points: a restored state is a state,
+                # its dispatch index has to be as exact as the live one's
+                sc["restore_seed"] = d.randint(0, 1 << 30, "restore_seed")
         elif kind == "library":
             n = d.randint(2, 8, "n")
             variant = d.randint(0, len(LIB_VARIANTS) - 1, "libvariant")
@@ -208,9 +213,23 @@ class C09(InterpProp):
         n_before = {"flows": None}
         moved = {"n": 0}
 
+        rd = Draws(sc["restore_seed"]) if sc.get("restore_seed") is not None else None
+
         def hook(res, rec):
             st = res.interp.state
             out.evaluations += 1
+            if rd is not None and rd.chance(0.3, "restore", out.evaluations):
+                try:
+                    from nemoguardrails.colang.v2_x.runtime.serialization import json_to_state, state_to_json
+
+                    st = json_to_state(state_to_json(st))
+                    st.internal_events = I.CountingDeque(st.internal_events)
+                    res.interp.state = st
+                    out.probe("state_restored_between_events")
+                except control.SimControl:
+                    raise
+                except Exception:
+                    pass  # what can be serialised is C11's subject
             sig = I.state_signature(st)
             out.state_sigs.append(sig)
             if rec.out or rec.steps > 2:
